@@ -13,6 +13,30 @@ pub struct Ctx {
     pub tier_thorough: bool,
     pub seed: u64,
     pub out_dir: PathBuf,
+    /// run only this case of a signal suite (cases are generated from (seed, suite, index) alone)
+    pub only_case: Option<usize>,
+    /// write the audio of the selected case(s) here as raw little-endian f32
+    pub dump_dir: Option<PathBuf>,
+}
+
+impl Ctx {
+    pub fn want(&self, i: usize) -> bool {
+        self.only_case.map(|c| c == i).unwrap_or(true)
+    }
+    pub fn dump(&self, suite: &str, i: usize, samples: &[f32]) {
+        if let (Some(d), Some(c)) = (&self.dump_dir, self.only_case) {
+            if c == i {
+                let _ = std::fs::create_dir_all(d);
+                let mut bytes = Vec::with_capacity(samples.len() * 4);
+                for x in samples {
+                    bytes.extend_from_slice(&x.to_le_bytes());
+                }
+                let path = d.join(format!("{}_seed{}_{}_case{}.f32", suite, self.seed, if self.tier_thorough { "thorough" } else { "quick" }, i));
+                let _ = std::fs::write(&path, bytes);
+                eprintln!("audio of case {} written to {}", i, path.display());
+            }
+        }
+    }
 }
 
 /// Run one request against the real code.  A panic is an answer (`PANIC: ...`), not a crash.
@@ -49,7 +73,7 @@ fn main() {
         std::process::exit(2);
     }
     let suite = args[1].clone();
-    let mut ctx = Ctx { tier_thorough: false, seed: 1, out_dir: PathBuf::from("/verif/work/run") };
+    let mut ctx = Ctx { tier_thorough: false, seed: 1, out_dir: PathBuf::from("/verif/work/run"), only_case: None, dump_dir: None };
     let mut rest = vec![];
     let mut i = 2;
     while i < args.len() {
@@ -64,6 +88,14 @@ fn main() {
             }
             "--out" => {
                 ctx.out_dir = PathBuf::from(&args[i + 1]);
+                i += 2;
+            }
+            "--case" => {
+                ctx.only_case = Some(args[i + 1].parse().expect("case"));
+                i += 2;
+            }
+            "--dump" => {
+                ctx.dump_dir = Some(PathBuf::from(&args[i + 1]));
                 i += 2;
             }
             _ => {
